@@ -293,7 +293,7 @@ def struct_buffers(rep, wd, buffers):
     return n
 
 
-def struct_getters(rep, wd, getters):
+def struct_getters(rep, wd, getters, nested=None):
     """JS and Dart turn a struct into a host object with one `_fieldsForLifetime<X>` getter per definition lifetime; the getter
     must list every field whose type mentions that lifetime (FieldsFor in Lifetimes.tla).  Checked on the prelude structs."""
     src = os.path.join(wd, "getters.rs")
@@ -326,6 +326,12 @@ def struct_getters(rep, wd, getters):
                 if not want <= got:
                     rep.violation({"leg": "getters", "backend": b, "struct": name, "lifetime": l, "what": "field missing from the lifetime's keep-alive list"},
                                   {"expected_fields": sorted(want), "listed": sorted(got), "getter": m.group(0)[:300]})
+                # a field that is itself a borrowing struct contributes what IT keeps alive for the linked definition lifetimes
+                for fd in (nested or {}).get(k, {}).get(l, []):
+                    f_, d_ = fd[0], fd[1]
+                    if not re.search(r'\b%s\._fieldsForLifetime%s\b' % (f_, d_.upper()), m.group(1)):
+                        rep.violation({"leg": "getters", "backend": b, "struct": name, "lifetime": l, "what": "nested struct's keep-alive list not forwarded"},
+                                      {"nested_field": f_, "nested_lifetime": d_, "getter": m.group(0)[:300]})
     return n
 
 
@@ -483,6 +489,6 @@ def run(rep, tier):
     rep.extra["backend_emission_checked"] = k
     gt = lib.tlc("life", "MC_Lifetimes", "getters.cfg", workers=1, coverage=False)
     lib.tlc_expect_ok(gt, "struct field/lifetime table")
-    rep.extra["struct_getters_checked"] = struct_getters(rep, wd, gt.printed["GETTERS"][0])
+    rep.extra["struct_getters_checked"] = struct_getters(rep, wd, gt.printed["GETTERS"][0], gt.printed["NESTED"][0])
     rep.extra["struct_buffer_fields_checked"] = struct_buffers(rep, wd, gt.printed["BUFFERS"][0])
     rep.exhaustive = (tier == "thorough")
